@@ -67,6 +67,20 @@ theorem tick_cases (s : St) : step s .tick = (s, []) ∨ ∃ k, step s .tick = (
     · exact Or.inr ⟨_, rfl⟩
   · exact Or.inl rfl
 
+/-- what `n` retry-requests produce when they are cancelled on a dead socket without stream management: each fails, its
+continuation sends the retry (logged, nothing transmitted), which fails at once -/
+def failedRetries (n : Nat) : List Out :=
+  (List.replicate n [Out.sig (.iqDone true), .sent (.iqRequest false) .down, .sig (.iqDone true)]).flatten
+
+theorem retryN_down (n : Nat) (t : St) (ha : t.ackEnabled = false) (hc : t.conn ≠ .connected) :
+    retryN n t = (t, failedRetries n) := by
+  induction n with
+  | zero => rfl
+  | succ n ih =>
+    have e : sendIq t = (t, [.sent (.iqRequest false) .down, .sig (.iqDone true)]) := by
+      simp [sendIq, sendStanza, ha, hc, send, link]
+    simp only [retryN, e, ih, failedRetries, List.replicate_succ, List.flatten_cons]
+
 /-- state right after cut + reconnect, from ANY state with a live connection and no pending redirect -/
 theorem cut_reconnect_state (s : St) (hc : s.conn = .connected) (hr : s.redirect = false) :
     (run s cutAndReconnect).1 =
